@@ -215,6 +215,8 @@ _src_cache = {}
 
 def func_ast(fn):
     """AST of a python function object, re-read from its source file."""
+    if getattr(fn, '__pyvc_ast__', None) is not None:
+        return fn.__pyvc_ast__
     key = (fn.__code__.co_filename, fn.__code__.co_firstlineno, fn.__qualname__)
     if key not in _src_cache:
         src = textwrap.dedent(inspect.getsource(fn))
@@ -367,6 +369,8 @@ class Path:
         self.qdefs = []          # definitions of the Bools that abstract quantified formulas
         self.quants = []
         self.indices = []
+        self.keyquants = []
+        self.keylookups = []
         self.lits = [set()]
         self.lit_keep = []
         self.trace = []          # ghost effect trace (fs effects, emitted segments)
@@ -504,6 +508,31 @@ class Path:
             fact = z3.Implies(body, b)
         self._add_fact(fact)
         self.engine.scan_instance(body)
+
+    def key_quant(self, b, i, body, dterm):
+        """a universal fact over the keys of dict ``dterm`` (body is written in terms
+        of the key dk[i]): instantiated at the keys the dict is looked up with"""
+        self.keyquants.append((b, i, body, dterm, vals.tid(dterm)))
+        for (did, kt) in self.keylookups:
+            if did == vals.tid(dterm):
+                self._key_instance(b, i, body, dterm, kt)
+
+    def key_lookup(self, dterm, kt):
+        dterm = z3.simplify(dterm)
+        did = vals.tid(dterm)
+        kt = z3.simplify(kt)
+        if any(d == did and k.eq(kt) for (d, k) in self.keylookups):
+            return
+        self.keylookups.append((did, kt))
+        for (b, i, body, dt, d2) in list(self.keyquants):
+            if d2 == did:
+                self._key_instance(b, i, body, dt, kt)
+
+    def _key_instance(self, b, i, body, dterm, kt):
+        key_i = z3.simplify(z3.Select(Val.dk(dterm), i))
+        inst = z3.substitute(body, (key_i, kt))
+        present = z3.Select(Val.dm(dterm), vals.KeyId(kt)) != Val.VAbsent
+        self._add_fact(z3.Implies(z3.And(b, present), inst))
 
     def index(self, k, src=None):
         """register an index term at which the quantified facts (over the same
@@ -1101,6 +1130,21 @@ class Engine:
         if isinstance(st.value, ast.Constant):
             return      # docstring
         v = st.value
+        if isinstance(v, ast.Call) and isinstance(v.func, ast.Attribute) and v.func.attr == 'append' \
+                and isinstance(v.func.value, ast.Attribute) and len(v.args) == 1 and not v.keywords:
+            owner = self.eval(v.func.value.value, fr)
+            if isinstance(owner, T):
+                # o.attr.append(x) on a list held in an object attribute: the attribute is
+                # updated functionally (the list is owned by the object: no alias is mutated)
+                cur = self.getattr_(owner, v.func.value.attr, v.func.value)
+                item = self.eval(v.args[0], fr)
+                ct = self.lift(cur)
+                self.fail_if(z3.Not(Val.is_VList(ct)), AttributeError, 'append on a non-list')
+                n = Val.llen(ct)
+                new = Val.VList(n + 1, z3.Store(Val.larr(ct), n, self.lift(item)))
+                self.assumptions.add('lists / dicts held in object attributes are owned by the object (no aliases)')
+                self.setattr_(owner, v.func.value.attr, T(new), v.func.value)
+                return
         if isinstance(v, ast.Call) and isinstance(v.func, ast.Attribute) and v.func.attr == 'update' \
                 and isinstance(v.func.value, ast.Name) and len(v.args) == 1 and not v.keywords:
             cur = self.eval(v.func.value, fr)
@@ -1161,6 +1205,14 @@ class Engine:
         elif isinstance(tgt, ast.Subscript):
             obj = self.eval(tgt.value, fr)
             idx = self.eval(tgt.slice, fr)
+            if isinstance(obj, T) and isinstance(tgt.value, ast.Attribute):
+                # o.attr[k] = v on a dict held in an object attribute: functional update of the attribute
+                from . import builtins_model
+                owner = self.eval(tgt.value.value, fr)
+                if isinstance(owner, T):
+                    self.assumptions.add('lists / dicts held in object attributes are owned by the object (no aliases)')
+                    self.setattr_(owner, tgt.value.attr, builtins_model.dict_store(self, obj, idx, v), tgt.value)
+                    return
             if isinstance(obj, T) and isinstance(tgt.value, ast.Name):
                 # item store on a symbolic dict held in a local: functional update + rebind
                 # (sound while the dict is not aliased; it is created in the function)
@@ -2299,13 +2351,14 @@ class SItems(SV):
 class SQuant(SV):
     """Generator over a symbolic source: element condition as a function of
     the index (consumed by any()/all())."""
-    __slots__ = ('i', 'n', 'body', 'fails')
+    __slots__ = ('i', 'n', 'body', 'fails', 'dsrc')
 
-    def __init__(self, i, n, body, fails):
+    def __init__(self, i, n, body, fails, dsrc=None):
         self.i = i
         self.n = n
         self.body = body
         self.fails = fails
+        self.dsrc = dsrc          # dict term when the generator ranges over the keys / items of a dict
 
 
 def _symbolic_comprehension(self, node, it, fr, kind):
@@ -2341,7 +2394,12 @@ def _symbolic_comprehension(self, node, it, fr, kind):
         goal = self.path.quant(z3.ForAll([i], z3.Implies(rng, z3.And(*pres))), n)
         self.require(goal, 'pre(elementwise)@%s' % node.lineno)
     if kind == 'gen':
-        return SQuant(i, n, ev, fails)
+        dsrc = None
+        if isinstance(it, SItems):
+            dsrc = z3.simplify(it.t)
+        elif isinstance(it, T) and self.must(Val.is_VDict(it.t)):
+            dsrc = z3.simplify(it.t)
+        return SQuant(i, n, ev, fails, dsrc)
     if fails:
         if self.merge:
             # nested inside another summary: propagate a quantified failure condition
